@@ -204,17 +204,20 @@ func pick(rng *hlib.Rng) (c cfg, constructErr error) {
 	return
 }
 
-func ptLen(rng *hlib.Rng) int {
-	if hlib.Thorough() && rng.Chance(2) {
+func ptLenMax(rng *hlib.Rng, max int) int {
+	if max >= 4200 && hlib.Thorough() && rng.Chance(2) {
 		return rng.Pick(65535, 65536, 65537, 1<<18)
 	}
-	return rng.MsgLen(4200)
+	return rng.MsgLen(max)
 }
 
 func main() {
 	o := hlib.Open("C01")
 	defer o.Close()
 	mut := *hlib.FlagMode == "mut"
+	// crypto/rand is served from a seeded tape: nonces, DEKs and key ids are functions of the seed, so
+	// the op lines (and hence every replay) are reproducible and the pre and main phases see the same bytes.
+	hlib.InstallTape(*hlib.FlagSeed)
 	rng := hlib.NewRng(*hlib.FlagSeed, "c01"+*hlib.FlagMode)
 	n := hlib.N(500, 15000)
 	for i := 0; i < n; i++ {
@@ -226,107 +229,126 @@ func main() {
 			continue
 		}
 		o.Count(c.kind)
-		for j := 0; j < 2; j++ {
-			pt := rng.Bytes(ptLen(rng))
-			var ad []byte
-			adTok := "-"
-			switch rng.Intn(4) {
-			case 0:
-				ad = nil
-			case 1:
-				ad = []byte{}
-			default:
-				ad = rng.Bytes(rng.MsgLen(300))
-				adTok = hlib.Tok(ad)
+		exercise(o, rng, c, mut, 2, 4200)
+	}
+	// systematic parts (own PRNG streams, so the random stream above is unaffected by them)
+	runGrid(o, hlib.NewRng(*hlib.FlagSeed, "c01grid"+*hlib.FlagMode), mut)
+	runKeysets(o, hlib.NewRng(*hlib.FlagSeed, "c01ks"+*hlib.FlagMode), mut)
+	runKMS(o, hlib.NewRng(*hlib.FlagSeed, "c01kms"+*hlib.FlagMode), mut)
+}
+
+// exercise runs the two-way correspondence (and, in mut mode, the mutation stream) for one AEAD
+// instance on `rounds` fresh (plaintext, associated data) pairs.
+func exercise(o *hlib.Out, rng *hlib.Rng, c cfg, mut bool, rounds, maxPt int) {
+	for j := 0; j < rounds; j++ {
+		pt := rng.Bytes(ptLenMax(rng, maxPt))
+		var ad []byte
+		adTok := "-"
+		switch rng.Intn(4) {
+		case 0:
+			ad = nil
+		case 1:
+			ad = []byte{}
+		default:
+			ad = rng.Bytes(rng.MsgLen(300))
+			adTok = hlib.Tok(ad)
+		}
+		// (a) Tink encrypts; the independent implementation must reproduce the ciphertext from the
+		// random field and decrypt it.
+		ct, err := c.prim.Encrypt(pt, ad)
+		if err != nil {
+			o.Violate("Encrypt failed (%s): %v", c.kind, err)
+			continue
+		}
+		if len(ct) != c.preLen+c.rndLen+len(pt)+c.tagLen {
+			o.Violate("ciphertext length %d is not prefix+nonce+|pt|+tag (%s)", len(ct), c.kind)
+			continue
+		}
+		rnd := ct[c.preLen : c.preLen+c.rndLen]
+		o.Emit(fmt.Sprintf("!A enc %s %s %s %s", c.model, hlib.Tok(rnd), hlib.Tok(pt), adTok), "ok "+hlib.Tok(ct), true)
+		ctCopy := append([]byte(nil), ct...)
+		back, err := c.prim.Decrypt(ct, ad)
+		if err != nil || !bytes.Equal(back, pt) {
+			o.Violate("Decrypt(Encrypt(pt)) != pt (%s, |pt|=%d)", c.kind, len(pt))
+		}
+		// the same buffer decrypts again (Decrypt must leave the caller's ciphertext alone)
+		if !bytes.Equal(ct, ctCopy) {
+			o.Violate("Decrypt modified the caller's ciphertext buffer (%s, |pt|=%d)", c.kind, len(pt))
+		}
+		if b2, e2 := c.prim.Decrypt(ct, ad); e2 != nil || !bytes.Equal(b2, pt) {
+			o.Violate("second Decrypt of the same ciphertext buffer failed (%s, |pt|=%d)", c.kind, len(pt))
+		}
+		copy(ct, ctCopy)
+		o.Emit(fmt.Sprintf("!A dec %s %s %s", c.model, hlib.Tok(ct), adTok), rej(back, err), true)
+		// nil and empty associated data are interchangeable
+		if len(ad) == 0 {
+			var other []byte
+			if ad == nil {
+				other = []byte{}
 			}
-			// (a) Tink encrypts; the independent implementation must reproduce the ciphertext from the
-			// random field and decrypt it.
-			ct, err := c.prim.Encrypt(pt, ad)
-			if err != nil {
-				o.Violate("Encrypt failed (%s): %v", c.kind, err)
-				continue
+			if b2, e2 := c.prim.Decrypt(ct, other); e2 != nil || !bytes.Equal(b2, pt) {
+				o.Violate("nil/empty associated data are not interchangeable (%s)", c.kind)
 			}
-			if len(ct) != c.preLen+c.rndLen+len(pt)+c.tagLen {
-				o.Violate("ciphertext length %d is not prefix+nonce+|pt|+tag (%s)", len(ct), c.kind)
-				continue
-			}
-			rnd := ct[c.preLen : c.preLen+c.rndLen]
-			o.Emit(fmt.Sprintf("!A enc %s %s %s %s", c.model, hlib.Tok(rnd), hlib.Tok(pt), adTok), "ok "+hlib.Tok(ct), true)
-			back, err := c.prim.Decrypt(ct, ad)
-			if err != nil || !bytes.Equal(back, pt) {
-				o.Violate("Decrypt(Encrypt(pt)) != pt (%s, |pt|=%d)", c.kind, len(pt))
-			}
-			o.Emit(fmt.Sprintf("!A dec %s %s %s", c.model, hlib.Tok(ct), adTok), rej(back, err), true)
-			// nil and empty associated data are interchangeable
-			if len(ad) == 0 {
-				var other []byte
-				if ad == nil {
-					other = []byte{}
-				}
-				if b2, e2 := c.prim.Decrypt(ct, other); e2 != nil || !bytes.Equal(b2, pt) {
-					o.Violate("nil/empty associated data are not interchangeable (%s)", c.kind)
-				}
-			}
-			// (b) the independent implementation encrypts with a nonce of our choosing; Tink must decrypt.
-			rnd2 := rng.Bytes(c.rndLen)
-			ans := hlib.Ask(fmt.Sprintf("A enc %s %s %s %s", c.model, hlib.Tok(rnd2), hlib.Tok(pt), adTok))
-			if !hlib.Pre() {
-				if !strings.HasPrefix(ans, "ok ") {
-					o.Violate("model could not encrypt: %s", ans)
-				} else {
-					mct := hlib.FromTok(ans[3:])
-					b3, e3 := c.prim.Decrypt(mct, ad)
-					if e3 != nil || !bytes.Equal(b3, pt) {
-						o.Violate("Tink does not decrypt the independent implementation's ciphertext (%s |pt|=%d |ad|=%d)", c.kind, len(pt), len(ad))
-					}
-					o.Emit(fmt.Sprintf("!A dec %s %s %s", c.model, hlib.Tok(mct), adTok), rej(b3, e3), true)
-				}
-			}
-			if !mut {
-				continue
-			}
-			// ---- C02: nothing but the genuine (ciphertext, ad) pair is accepted ----
-			muts := rng.Mutations(ct, 10)
-			// every field boundary: cut points and flips around prefix / nonce / body / tag edges
-			for _, pos := range []int{c.preLen, c.preLen + c.rndLen, len(ct) - c.tagLen, len(ct) - 1, 0} {
-				if pos >= 0 && pos < len(ct) {
-					m := append([]byte(nil), ct...)
-					m[pos] ^= 1 << uint(rng.Intn(8))
-					muts = append(muts, hlib.Mut{Kind: "flip-boundary", Data: m})
-					muts = append(muts, hlib.Mut{Kind: "cut-boundary", Data: append([]byte(nil), ct[:pos]...)})
-				}
-			}
-			for l := 0; l <= c.preLen+c.rndLen+c.tagLen+1 && l < 80; l += 1 + rng.Intn(6) {
-				muts = append(muts, hlib.Mut{Kind: "short-random", Data: rng.Bytes(l)})
-			}
-			if c.preLen == 5 {
-				m := append([]byte(nil), ct...)
-				m[0] ^= 1 // the other variant's start byte
-				muts = append(muts, hlib.Mut{Kind: "other-variant", Data: m})
-				muts = append(muts, hlib.Mut{Kind: "raw-of-prefixed", Data: append([]byte(nil), ct[5:]...)})
+		}
+		// (b) the independent implementation encrypts with a nonce of our choosing; Tink must decrypt.
+		rnd2 := rng.Bytes(c.rndLen)
+		ans := hlib.Ask(fmt.Sprintf("A enc %s %s %s %s", c.model, hlib.Tok(rnd2), hlib.Tok(pt), adTok))
+		if !hlib.Pre() {
+			if !strings.HasPrefix(ans, "ok ") {
+				o.Violate("model could not encrypt: %s", ans)
 			} else {
-				muts = append(muts, hlib.Mut{Kind: "prefixed-of-raw", Data: append([]byte{1, 0, 0, 0, 1}, ct...)})
-			}
-			for _, mu := range muts {
-				var b []byte
-				var e error
-				if p := hlib.Recover(func() { b, e = c.prim.Decrypt(mu.Data, ad) }); p != "" {
-					o.Violate("Decrypt panicked on a %s input (%s): %s", mu.Kind, c.kind, p)
-					continue
+				mct := hlib.FromTok(ans[3:])
+				b3, e3 := c.prim.Decrypt(mct, ad)
+				if e3 != nil || !bytes.Equal(b3, pt) {
+					o.Violate("Tink does not decrypt the independent implementation's ciphertext (%s |pt|=%d |ad|=%d)", c.kind, len(pt), len(ad))
 				}
-				o.Count("mut/" + mu.Kind)
-				if e == nil && !bytes.Equal(mu.Data, ct) {
-					o.Violate("Decrypt accepted a %s-mutated ciphertext (%s) ct=%s", mu.Kind, c.kind, hlib.Tok(mu.Data))
-				}
-				o.Emit(fmt.Sprintf("A dec %s %s %s", c.model, hlib.Tok(mu.Data), adTok), rej(b, e), true)
+				o.Emit(fmt.Sprintf("!A dec %s %s %s", c.model, hlib.Tok(mct), adTok), rej(b3, e3), true)
 			}
-			for _, mu := range append(rng.Mutations(ad, 3), hlib.Mut{Kind: "ad-dropped", Data: nil}, hlib.Mut{Kind: "ad-extended", Data: append(append([]byte(nil), ad...), 0)}) {
-				b, e := c.prim.Decrypt(ct, mu.Data)
-				if e == nil && !bytes.Equal(mu.Data, ad) {
-					o.Violate("Decrypt accepted modified associated data (%s, %s)", mu.Kind, c.kind)
-				}
-				o.Emit(fmt.Sprintf("A dec %s %s %s", c.model, hlib.Tok(ct), hlib.Tok(mu.Data)), rej(b, e), true)
+		}
+		if !mut {
+			continue
+		}
+		// ---- C02: nothing but the genuine (ciphertext, ad) pair is accepted ----
+		muts := rng.Mutations(ct, 10)
+		// every field boundary: cut points and flips around prefix / nonce / body / tag edges
+		for _, pos := range []int{c.preLen, c.preLen + c.rndLen, len(ct) - c.tagLen, len(ct) - 1, 0} {
+			if pos >= 0 && pos < len(ct) {
+				m := append([]byte(nil), ct...)
+				m[pos] ^= 1 << uint(rng.Intn(8))
+				muts = append(muts, hlib.Mut{Kind: "flip-boundary", Data: m})
+				muts = append(muts, hlib.Mut{Kind: "cut-boundary", Data: append([]byte(nil), ct[:pos]...)})
 			}
+		}
+		for l := 0; l <= c.preLen+c.rndLen+c.tagLen+1 && l < 80; l += 1 + rng.Intn(6) {
+			muts = append(muts, hlib.Mut{Kind: "short-random", Data: rng.Bytes(l)})
+		}
+		if c.preLen == 5 {
+			m := append([]byte(nil), ct...)
+			m[0] ^= 1 // the other variant's start byte
+			muts = append(muts, hlib.Mut{Kind: "other-variant", Data: m})
+			muts = append(muts, hlib.Mut{Kind: "raw-of-prefixed", Data: append([]byte(nil), ct[5:]...)})
+		} else {
+			muts = append(muts, hlib.Mut{Kind: "prefixed-of-raw", Data: append([]byte{1, 0, 0, 0, 1}, ct...)})
+		}
+		for _, mu := range muts {
+			var b []byte
+			var e error
+			if p := hlib.Recover(func() { b, e = c.prim.Decrypt(mu.Data, ad) }); p != "" {
+				o.Violate("Decrypt panicked on a %s input (%s): %s", mu.Kind, c.kind, p)
+				continue
+			}
+			o.Count("mut/" + mu.Kind)
+			if e == nil && !bytes.Equal(mu.Data, ct) {
+				o.Violate("Decrypt accepted a %s-mutated ciphertext (%s) ct=%s", mu.Kind, c.kind, hlib.Tok(mu.Data))
+			}
+			o.Emit(fmt.Sprintf("A dec %s %s %s", c.model, hlib.Tok(mu.Data), adTok), rej(b, e), true)
+		}
+		for _, mu := range append(rng.Mutations(ad, 3), hlib.Mut{Kind: "ad-dropped", Data: nil}, hlib.Mut{Kind: "ad-extended", Data: append(append([]byte(nil), ad...), 0)}) {
+			b, e := c.prim.Decrypt(ct, mu.Data)
+			if e == nil && !bytes.Equal(mu.Data, ad) {
+				o.Violate("Decrypt accepted modified associated data (%s, %s)", mu.Kind, c.kind)
+			}
+			o.Emit(fmt.Sprintf("A dec %s %s %s", c.model, hlib.Tok(ct), hlib.Tok(mu.Data)), rej(b, e), true)
 		}
 	}
 }
